@@ -54,6 +54,20 @@ def uniformKids : List (Key × Agg) → Bool
 end
 
 mutual
+/-- every SparselyBin / Categorize node (through children) names a registered factory as its
+`contentType` — what `Factory.fromJson` checks on `bins:type`. -/
+def knownCtype : Agg → Bool
+  | .node k _ _ _ kids =>
+    (match k with
+     | .sparse _ _ _ ctype _ => isKnownType ctype
+     | .categorize _ ctype _ => isKnownType ctype
+     | _ => true) && knownCtypeKids kids
+def knownCtypeKids : List (Key × Agg) → Bool
+  | [] => true
+  | (_, a) :: rest => knownCtype a && knownCtypeKids rest
+end
+
+mutual
 /-- no `num` node carries a non-finite value (they cannot: `Json.num` holds a `Rat`), and no `null`
 occurs: what `json.dumps(allow_nan=False)` needs, plus the absence of dropped fields -/
 def Json.noNull : Json → Bool
